@@ -133,7 +133,29 @@ func vfReach(id string) {
 		vfAssert(false, "twin-"+id)
 	}
 }
-func vfAllocBound(k int) {}
+// vfAllocBound: natively the bytes allocated from here on are measured and
+// compared (generously) with the declared per-allocation bound.
+var vfAllocK int
+var vfAllocBase uint64
+
+func vfAllocBound(k int) {
+	var ms runtime.MemStats
+	runtime.ReadMemStats(&ms)
+	vfAllocK, vfAllocBase = k, ms.TotalAlloc
+}
+
+func vfAllocExceeded() string {
+	if vfAllocK == 0 {
+		return ""
+	}
+	var ms runtime.MemStats
+	runtime.ReadMemStats(&ms)
+	d := ms.TotalAlloc - vfAllocBase
+	if d > uint64(8*vfAllocK+16384) {
+		return fmt.Sprintf("alloc-exceeded %d bytes allocated, declared per-allocation bound %d", d, vfAllocK)
+	}
+	return ""
+}
 func vfParam(name string, def int) int {
 	if vfW != nil {
 		if v, ok := vfW.Params[name]; ok {
